@@ -67,7 +67,9 @@ fn authentic(s: &Scn) -> Authentic {
     let prologue = vec![0x65, 0x67, 0x6b, 0x10];
     let msg = match s.surface {
         Surface::Noise => {
-            let payload = r.bytes(32);
+            // pt_len doubles as the payload length class: anything but 32 bytes is an authentic
+            // Noise message that is not a kestrel payload key and must be refused with an error
+            let payload = r.bytes(noise_payload_len(s));
             rn::write_x(&prologue, &s_priv, &rp::x25519_base(&s_priv), &e_priv, &rp::x25519_base(&e_priv), &rp::x25519_base(&r_priv), &payload).message
         }
         Surface::Aead => rp::seal(&key, &nonce, &aad, &pt),
@@ -76,6 +78,17 @@ fn authentic(s: &Scn) -> Authentic {
         Surface::PassFile => vec![0x65, 0x67, 0x6b, 0x20],
     };
     Authentic { msg, r_priv, prologue, key, nonce, aad, pt, sender: rp::x25519_base(&s_priv) }
+}
+
+fn noise_payload_len(s: &Scn) -> usize {
+    match s.pt_len {
+        0 => 0,
+        1 => 16,
+        15 => 31,
+        17 => 33,
+        100 => 100,
+        _ => 32,
+    }
 }
 
 fn mutate(a: &[u8], m: &Mutn) -> Vec<u8> {
@@ -144,7 +157,7 @@ impl A8 {
             Guarded::Returned(Ok(v)) => {
                 class = "ok";
                 let right = match s.surface {
-                    Surface::Noise => v == a.sender,
+                    Surface::Noise => v == a.sender && noise_payload_len(s) == 32,
                     Surface::Aead => v == a.pt,
                     _ => false,
                 };
@@ -154,7 +167,8 @@ impl A8 {
             }
             Guarded::Returned(Err(e)) => {
                 class = "err";
-                if is_authentic && !file_surface {
+                let must_accept = is_authentic && !file_surface && !(s.surface == Surface::Noise && noise_payload_len(s) != 32);
+                if must_accept {
                     out.violations.push(viol("C09", &format!("authentic_rejected_{}", surf), format!("surface={}: the authentic message was rejected: {}", surf, e)));
                 }
             }
